@@ -7,3 +7,4 @@ import LLBuild.Props.C05
 import LLBuild.Props.EngineImplSound
 import LLBuild.Props.EngineImplTerm
 import LLBuild.Props.EngineImplAsync
+import LLBuild.Props.EngineImplSched3
